@@ -1,12 +1,13 @@
 package relay
 
 import (
-	"math/big"
-	"os"
 	"bytes"
 	"crypto/sha256"
 	"encoding/json"
 	"fmt"
+	"github.com/ethereum/go-ethereum/common"
+	"math/big"
+	"os"
 	"strings"
 
 	sdk "github.com/cosmos/cosmos-sdk/types"
@@ -264,6 +265,12 @@ func (s *Sys) deliverAck(src *world.Chain, signer world.Account, msgs []sdk.Msg,
 	if t == nil {
 		add("C02", "ack-accepted-for-packet-never-sent", fmt.Sprintf("ack %s accepted on %s for triple %s", what, short[src.Name], tr))
 		return "ack accepted", class
+	}
+	if strings.Contains(t.Kind, "+cbfail") {
+		calls := src.App.EvmKeeper.GetState(src.ReadCtx(), s.cb[short[src.Name]], common.Hash{})
+		for _, prop := range []string{"C17", "C05", "C03"} {
+			add(prop, "acknowledgement-accepted-although-the-native-action-of-its-callback-failed", fmt.Sprintf("ack %s on %s: the sender's callback contract calls Staking.delegate for a malformed validator (the native action cannot succeed); the transaction succeeded, the callback contract's call counter reads %s", what, short[src.Name], calls.Hex()))
+		}
 	}
 	if t.Acked || len(msgs) > 1 {
 		add("C05", "acknowledgement-processed-twice", fmt.Sprintf("ack %s accepted on %s although it was already processed (or repeated inside the tx)", what, short[src.Name]))
